@@ -37,21 +37,42 @@ def replay_spec(ctx, witness):
 def run_shard(spec):
     import random
     acc = Acc()
-    with C.Workdir() as wd:
+    with C.Workdir() as wd0:
         sch, names, tagmap = build_raw_schema(spec)
         w = W.Wire(sch)
         rng = random.Random(spec['seed'])
+        # the schema as one file, and (canary and wrapped files, which hold the delicate shapes) cut into an included and
+        # an including file compiled in one run: same swap, same bytes
+        variants = ['one-file'] + (['two-files'] if spec['kind'] == 'seq' and spec.get('wrap') and len(sch.defs) >= 4 else [])
+        for variant in variants:
+            wd = os.path.join(wd0, variant)
+            os.makedirs(wd)
+            run_variant(acc, spec, wd, sch, names, tagmap, w, rng, variant)
+    return acc.done()
+
+
+def run_variant(acc, spec, wd, sch, names, tagmap, w, rng, variant):
+    if True:
         text = sch.to_prophy()
         try:
-            gen, nodes = cppdrv.prophyc_cpp(text, wd, full=False, raw=True)
+            if variant == 'two-files':
+                order = [d.name for d in sch.defs]
+                cut = len(order) // 2
+                gen, nodes = cppdrv.prophyc_cpp('#include "inc.prophy"\n' + sch.to_prophy(only=set(order[cut:])), wd,
+                                                full=False, raw=True, files={'inc.prophy': sch.to_prophy(only=set(order[:cut]))})
+                sources = [os.path.join(gen, 'sch.pp.cpp'), os.path.join(gen, 'inc.pp.cpp')]
+                acc.count('two_file_schemas_compiled')
+            else:
+                gen, nodes = cppdrv.prophyc_cpp(text, wd, full=False, raw=True)
+                sources = [os.path.join(gen, 'sch.pp.cpp')]
             path = os.path.join(wd, 'swp.cpp')
             with open(path, 'w') as f:
                 f.write(cppdrv.raw_swap_driver_source(names))
             binary = os.path.join(wd, 'swp')
-            cppdrv.compile_cpp([path, os.path.join(gen, 'sch.pp.cpp')], binary, [gen])
+            cppdrv.compile_cpp([path] + sources, binary, [gen])
         except cppdrv.BuildFailed as e:
-            acc.prereq({'stage': e.stage, 'error': str(e)[-1500:], 'schema': text[:1500]})
-            return acc.done()
+            acc.prereq({'stage': e.stage, 'error': variant + ': ' + str(e)[-1500:], 'schema': text[:1500]})
+            return
         acc.count('schema_files_compiled')
         acc.count('types_compiled', len(names))
         cases = []
@@ -88,7 +109,7 @@ def run_shard(spec):
                 sub = sch.closure(n)
                 wit = {'schema_json': sub.to_json(), 'schema': sub.to_prophy(), 'type': n, 'tags': tagmap[n],
                        'mode': mode, 'value': C.jsonable(v), 'foreign': C.hexs(be), 'expected_native': C.hexs(le),
-                       'pass': 'exact-heap-block' if op == 0 else 'sentinel-arena'}
+                       'pass': 'exact-heap-block' if op == 0 else 'sentinel-arena', 'variant': variant}
                 wit.update(kw)
                 return wit
             r = res.get(cid)
@@ -138,7 +159,6 @@ def run_shard(spec):
             else:
                 acc.violation(PROP, 'sanitizer-at-exit:' + (cppdrv.san_class(rep.get('stderr', '')) or 'rc=%s' % rep.get('rc')),
                               {'schema': sch.to_prophy()[:3000], 'report': rep.get('stderr', '')[:3000]})
-    return acc.done()
 
 
 def finish(ctx, merged, specs):
